@@ -147,8 +147,13 @@ ApplyRead(s, r) ==
 \* released at once through its EntryInfo; the queued removal then finds nothing to do)
 TrySkip(s, c, k) ==
     IF s.map[k].p
-    THEN IF s.info[s.map[k].i].dirty
-         THEN <<MoveBackWo(MoveBackAo(s, s.map[k].i), s.map[k].i), TRUE, c>>
+    THEN IF s.map[k].i # Head(s.ao) /\ "F12" \notin Dev
+         THEN \* the front node is a leftover of an earlier entry of this key: release it
+              LET r == HandleRemove(EmitMx(s, [t |-> "release.stale", k |-> k]), c, Head(s.ao))
+              IN <<r[1], TRUE, r[2]>>
+         ELSE IF s.info[s.map[k].i].dirty
+         THEN LET s1 == IF s.map[k].i # Head(s.ao) THEN EmitMx(s, [t |-> "skip.stale", k |-> k]) ELSE s
+              IN <<MoveBackWo(MoveBackAo(s1, s.map[k].i), s.map[k].i), TRUE, c>>
          ELSE <<s, FALSE, c>>
     ELSE IF "F12" \in Dev
          THEN <<EmitMx([s EXCEPT !.ao = FrontToBack(s.ao)], [t |-> "skip.absent", k |-> k]), TRUE, c>>
